@@ -164,16 +164,20 @@ theorem hs_inv_setitem_full_false :
   intro h
   exact absurd (h (HS.construct [['a'], ['b']]) (.setitem 0 ['B']) (by decide)) (by decide)
 
-/-- the constructor establishes the invariant when the input has no case-duplicates -/
-theorem hs_construct_inv (l : List Str) (h : (l.map lower).Nodup) : Inv (HS.construct l) :=
-  C08L.hs_construct_inv l h
+/-- **the constructor establishes the invariant for every input** (as repaired by 1a2e0e6: both
+containers are built through the loop of `update()`): `HeaderSet(items)` keeps the first spelling of
+every member - it is the case-insensitive ordered set obtained by inserting the items one by one -
+and nothing is dropped when the input has no case-duplicates -/
+theorem hs_construct_inv (l : List Str) :
+    Inv (HS.construct l) ∧ (HS.construct l).headers = HSSpec.insertAll [] l ∧
+    ((l.map lower).Nodup → HS.construct l = ⟨l, l.map lower⟩) :=
+  ⟨C08L.hs_construct_inv_any l, C08L.construct_headers l, C08L.construct_of_nodup l⟩
 
-example : (([['a'], ['B'], ['c']] : List Str).map lower).Nodup := by decide
-
-/-- F08c: ... and does not otherwise: `HeaderSet(['a','A'])` has two items and `len == 1`. -/
-theorem hs_construct_inv_full_false : ¬ (∀ l : List Str, Inv (HS.construct l)) := by
-  intro h
-  exact absurd (h [['a'], ['A']]) (by decide)
+/-- the F08c regression (repaired by 1a2e0e6): `HeaderSet(['a','A'])` has one item and `len == 1`
+(it used to keep both spellings with `len == 1`) -/
+theorem hs_construct_case_duplicates_regression :
+    HS.construct [['a'], ['A']] = ⟨[['a']], [['a']]⟩ ∧ HS.construct [['b'], ['a'], ['B'], ['c']] = ⟨[['b'], ['a'], ['c']], [['b'], ['a'], ['c']]⟩ := by
+  decide
 
 /-- One step: under the invariant every mutator acts on the member list exactly like the
 case-insensitive ordered set model (`HSSpec.step`) and raises the same exception. -/
